@@ -1,6 +1,7 @@
 import Texel.Properties.C02
 import Texel.Proofs.Output
 import Texel.Properties.C14
+import Texel.Proofs.GenArith
 import Mathlib.Tactic.Ring
 import Mathlib.Tactic.Linarith
 /-! # C03 — output coordinates are vector-tile pixel centres
@@ -128,6 +129,18 @@ theorem C03_pixel_is_sixteenth_of_cell (g : Grid) (XSpan : Int) (hX : XSpan = 2 
   rw [h2, hcell] at hsize
   have : ((tms[i].mw * tms[i].tw : Nat) : Int) * (16 * g.span l) = ((tms[i].mw * tms[i].tw : Nat) : Int) * cell := by linarith
   exact mul_left_cancel₀ (ne_of_gt hpos) this
+
+/-- **C03 on the current source**: the centre `getQuadrantExtentAndCentroid` hands out (its arithmetic regenerated from `/repo` on every run) lies in
+the extent it computes for the same pixel, and above the deepest level it is exactly the middle of that extent -/
+theorem C03_centre_source (g : Grid) (hres : 0 < g.res) (l : Nat) (p : Quad) :
+    let c := Gen.Arith.quadrantCentroid g.depth g.res g.minX g.minY l p.x p.y
+    let e := Gen.Arith.quadrantExtent g.depth g.res g.minX g.minY l p.x p.y
+    (e.1 ≤ c.1 ∧ c.1 < e.2.2.1 ∧ e.2.1 ≤ c.2 ∧ c.2 < e.2.2.2) ∧
+    (l < g.depth → 2 * (c.1 - e.1) = Gen.Arith.quadrantSpan g.depth g.res g.minX g.minY l p.x p.y ∧ 2 * (c.2 - e.2.1) = Gen.Arith.quadrantSpan g.depth g.res g.minX g.minY l p.x p.y) := by
+  simp only [GenArith.gen_centroid g (le_of_lt hres) l p, GenArith.gen_extent g l p, GenArith.gen_span]
+  refine ⟨?_, fun hl => C03_centre_exact g l hl p⟩
+  have := (containsPoint_iff _ _).1 (C03_centre_in_pixel g hres l p)
+  exact this
 
 -- non-vacuity of `C03_pixel_is_sixteenth_of_cell`: the two-matrix set of C14 is accepted; on a grid of depth 13 with unit resolution
 -- (XSpan = 2^13 = 1 · 256 · 32) level 0 + 8 + 4 has pixels of 2 units = 32 / 16
